@@ -355,6 +355,17 @@ def rule_r2_r3_r4(ctx):
                   construct=f"operator token {op}")
 
 
+def _expr_aliases(f) -> set[str]:
+    """Locals of f bound (once) to `self._expr`: reading them is reading the expression."""
+    binds: dict[str, list] = {}
+    for a in own_nodes(f.node):
+        if isinstance(a, ast.Assign):
+            for t in a.targets:
+                if isinstance(t, ast.Name):
+                    binds.setdefault(t.id, []).append(a.value)
+    return {k for k, v in binds.items() if len(v) == 1 and norm(v[0]) == "self._expr"}
+
+
 def rule_r5(ctx):
     sd = _sd(ctx)
     for name, opcls in DUNDER.items():
@@ -385,7 +396,7 @@ def rule_r5(ctx):
                 why = "reflected method may delegate to the plain one only for commutative operators"
             elif isinstance(e, ast.BinOp):
                 l, rr = norm(e.left), norm(e.right)
-                selfs = ("self._expr",)
+                selfs = ("self._expr", *sorted(_expr_aliases(f)))
                 others = (other, f"{other}._expr")
                 if type(e.op) is opcls:
                     ok = (l in others and rr in selfs) if reflected else (l in selfs and rr in others)
@@ -423,7 +434,8 @@ def rule_r5(ctx):
                   how="plain and reflected arithmetic methods of the class", construct=f"missing {twin}")
     f = sd.methods.get("__neg__")
     if f is not None:
-        ok = any(isinstance(n, ast.UnaryOp) and isinstance(n.op, ast.USub) and norm(n.operand) == "self._expr" for n in own_nodes(f.node))
+        al = _expr_aliases(f)
+        ok = any(isinstance(n, ast.UnaryOp) and isinstance(n.op, ast.USub) and (norm(n.operand) == "self._expr" or norm(n.operand) in al) for n in own_nodes(f.node))
         ctx.check("R5", "SymbolicDim.__neg__: -self._expr", ok, f, f.node, "__neg__ does not negate", nontrivial=False)
     # parser side: operator token -> SymPy form
     want = {"+": "left + right", "-": "left - right", "*": "left * right", "/": "left / right",
